@@ -12,6 +12,7 @@ import OrixProofs.Lemmas.SamplingBasic
 import OrixProofs.Lemmas.SamplingUV
 import OrixProofs.Lemmas.SamplingUVH
 import OrixProofs.Lemmas.SamplingCube
+import OrixProofs.Lemmas.SamplingCubeGen
 import OrixProofs.Lemmas.SamplingEA
 import OrixProofs.Lemmas.SO3Cover
 /-
@@ -41,9 +42,12 @@ Sections 2–4 are about the MODEL of the deterministic S2 meshes (`OrixModel/Sa
   * cube meshes: unit vectors and the count `6·(2·steps)² + 2` for all three grid types; for the normalized grid the
     spacing `1/steps ≤ tan r`, "the six face lists and the two corners contain every lattice point of the cube surface",
     and the covering theorem (chord ≤ tan(r)/√2) for `0 < r < 90°`; for `90° < r ≤ 135°` the code divides by zero
-    (proved for `r = 120°`; open finding C19-s2-tan-resolution-above-90).  The two spherified grids have NO covering
-    theorem (their face lattice is equiangular, spacing up to `2·r` near the face corners): measured only.
-  * spherified-edge grid: defined for every r > 0, equiangular edge points with angular step ≤ r (`_partial`).
+    (proved for `r = 120°`; open finding C19-s2-tan-resolution-above-90).
+  * spherified-edge grid: defined for every r > 0, equiangular edge points with angular step ≤ r, and THE COVERING
+    THEOREM for every `r > 0`: every direction has a mesh vector within chord `√2·r·π/180`
+    (`spherified_edge_covers_sphere`).
+  * spherified-corner grid (default of `sample_S2`): defined for every r > 0 and THE COVERING THEOREM for every `r > 0`:
+    every direction has a mesh vector within chord `1.5·r·π/180` (`spherified_corner_covers_sphere`).
   * equal-area mesh: unit vectors; defined for every r > 0 (any hemisphere, either endpoint flag); and THE COVERING
     THEOREM for `hemisphere="both"`: every direction `v` has a mesh vector `g` with `v·g ≥ cos(π/(4D)) − 1/(2D)`,
     `D = ⌈90/r⌉`, hence `≥ cos(rπ/360) − r/180` for `0 < r ≤ 360°` — without pole-duplicate removal for every `r > 0`,
@@ -783,6 +787,61 @@ theorem spherified_edge_equiangular_partial (r : ℝ) (hr : 0 < r) :
     obtain ⟨i, hi, rfl⟩ := List.mem_map.mp hx
     obtain ⟨h1, h2⟩ := mem_intRange.mp hi
     exact ⟨i, h1, h2, arctan_edge_point hr h1 h2.le⟩
+
+/-- COVERING THEOREM, spherified-edge cube mesh, EVERY resolution `r > 0`: every direction of the sphere has a mesh vector
+within squared chord `2·(r·π/180)²` (chord `√2·r·π/180`).  Every coordinate of the point where the direction pierces the
+cube is within one angular step — as a length: the tangent is 2-Lipschitz on `[-π/4, π/4]` and the nearest grid angle is
+within half a step — of an edge value, the face coordinate is hit exactly, the face lists miss no lattice point
+(`lattice_mem_cubePoints_gen`), and the radial projection onto the sphere does not increase distances outside the unit
+ball. -/
+theorem spherified_edge_covers_sphere (r : ℝ) (hr : 0 < r) (m : CubeMesh ℝ)
+    (hok : cubeMesh r .spherifiedEdge = .ok m) (v : Vec3 ℝ) (hv : Vec3.normSq v = 1) :
+    ∃ g ∈ m.vectors, Vec3.normSq (Vec3.sub v g) ≤ 2 * (r * (Real.pi / 180)) ^ 2 := by
+  simp only [cubeMesh, edgeGrid_spherifiedEdge_real] at hok
+  cases hok
+  simp only
+  rw [sphEdge_eq]
+  obtain ⟨g, hg, hd⟩ := cube_cover_gen (nEdge r) (nEdge_pos hr) (sphEdgeFn r) (sphEdgeFn_odd r) (sphEdgeFn_one hr)
+    (Real.pi / 4 / (nEdge r : ℝ)) (sphEdge_round hr) v hv
+  refine ⟨g, hg, le_trans hd ?_⟩
+  have hstep := edgeStep_le hr
+  have hnr : (0 : ℝ) < (nEdge r : ℝ) := by exact_mod_cast nEdge_pos hr
+  have h0 : 0 ≤ Real.pi / 4 / (nEdge r : ℝ) := by have := Real.pi_pos; positivity
+  have := pow_le_pow_left₀ h0 hstep 2
+  linarith
+
+/-- COVERING THEOREM, spherified-corner cube mesh (the default method of `sample_S2`), EVERY resolution `r > 0`: every
+direction of the sphere has a mesh vector within squared chord `(9/4)·(r·π/180)²` (chord `1.5·r·π/180`).  The edge values
+are `tan(i·arctan(√2)/n)/√2`; on `[-arctan √2, arctan √2]` the cosine is at least `1/√3`, so the tangent is 3-Lipschitz
+and every cube coordinate is within `(3/(2√2))·step` of an edge value. -/
+theorem spherified_corner_covers_sphere (r : ℝ) (hr : 0 < r) (m : CubeMesh ℝ)
+    (hok : cubeMesh r .spherifiedCorner = .ok m) (v : Vec3 ℝ) (hv : Vec3.normSq v = 1) :
+    ∃ g ∈ m.vectors, Vec3.normSq (Vec3.sub v g) ≤ 9 / 4 * (r * (Real.pi / 180)) ^ 2 := by
+  simp only [cubeMesh, edgeGrid_spherifiedCorner_real] at hok
+  cases hok
+  simp only
+  obtain ⟨g, hg, hd⟩ := cube_cover_gen (nCorner r) (nCorner_pos hr) (cornerFn r) (cornerFn_odd r) (cornerFn_one hr)
+    (3 / (2 * Real.sqrt 2) * (cornerAngle / (nCorner r : ℝ))) (corner_round hr) v hv
+  refine ⟨g, hg, le_trans hd ?_⟩
+  have hstep := cornerStep_le hr
+  have hnr : (0 : ℝ) < (nCorner r : ℝ) := by exact_mod_cast nCorner_pos hr
+  have h0 : 0 ≤ cornerAngle / (nCorner r : ℝ) := by have := cornerAngle_pos; positivity
+  have hsq := pow_le_pow_left₀ h0 hstep 2
+  have h2 : Real.sqrt 2 ^ 2 = 2 := Real.sq_sqrt (by norm_num)
+  have hs2 : Real.sqrt 2 ≠ 0 := by positivity
+  have e : 2 * (3 / (2 * Real.sqrt 2) * (cornerAngle / (nCorner r : ℝ))) ^ 2
+      = 9 / 4 * (cornerAngle / (nCorner r : ℝ)) ^ 2 := by
+    rw [mul_pow, div_pow, mul_pow, h2]; ring
+  rw [e]
+  linarith
+
+/-- the spherified-corner mesh is defined for every `r > 0` with `⌈arctan(√2)/(r·π/180)⌉ ≥ 1` steps -/
+theorem spherified_corner_defined (r : ℝ) (hr : 0 < r) :
+    ∃ m, cubeMesh r .spherifiedCorner = .ok m ∧ 1 ≤ m.steps := by
+  refine ⟨{ steps := nCorner r, edge := edgeOf (nCorner r) (cornerFn r),
+            vectors := (cubePoints (edgeOf (nCorner r) (cornerFn r))).map Vec3.unit },
+    by simp only [cubeMesh, edgeGrid_spherifiedCorner_real], ?_⟩
+  have := nCorner_pos hr; simp only; omega
 
 
 /-! ## 5. SO(3): the deterministic grids of the methods "quaternion" and "haar_euler" cover SO(3)
